@@ -143,6 +143,15 @@ func (w *world) genMsg() []byte {
 	}
 }
 
+// intEnc encodes an option integer in 2 bytes or, in a quarter of the cases, in 4 bytes (both are legal).
+func (w *world) intEnc(v int) []byte {
+	if w.c.R.Chance(1, 4) {
+		w.c.Count("chat_option_as_4_bytes", 1)
+		return rc.U32(v)
+	}
+	return rc.U16(v)
+}
+
 func (w *world) connect(m *mclient, oldFlow bool) bool {
 	addr := fmt.Sprintf("10.12.0.%d:%d", m.idx+1, 2000+w.step)
 	login := fmt.Sprintf("u%d", m.idx)
@@ -245,9 +254,9 @@ func (w *world) doStep() ([]delivery, bool) {
 		emote := r.Chance(1, 4)
 		fs := []rc.Field{rc.F(101, msg)}
 		if emote {
-			fs = append(fs, rc.F(109, rc.U16(1)))
+			fs = append(fs, rc.F(109, w.intEnc(1)))
 		} else if r.Chance(1, 4) {
-			fs = append(fs, rc.F(109, rc.U16(0)))
+			fs = append(fs, rc.F(109, w.intEnc(0)))
 		}
 		if r.Chance(1, 5) {
 			fs = append(fs, rc.F(114, []byte{0, 0, 0, 0})) // some clients send a zero chat id for public chat
@@ -276,7 +285,7 @@ func (w *world) doStep() ([]delivery, bool) {
 		emote := r.Chance(1, 4)
 		fs := []rc.Field{rc.F(114, ch.id), rc.F(101, msg)}
 		if emote {
-			fs = append(fs, rc.F(109, rc.U16(1)))
+			fs = append(fs, rc.F(109, w.intEnc(1)))
 		}
 		m.cl.Send(105, fs...)
 		w.log = append(w.log, fmt.Sprintf("client %d private send to chat %x len=%d emote=%v (member: %v, may send: %v)", m.idx, ch.id, len(msg), emote, ch.members[m.idx], m.send))
